@@ -807,9 +807,11 @@ def gen_del(rng):
 
 
 COLS = ['taxonomy', 'pH', 'Days', 'Path ways', 'Désc', 'BarcodeSequence', 'x', 'y']
-CELLS = {'sc': ['k__A; p__B', 'a;b ;c', 'Root', '', ' k__A ;p__B'], 'pipe': ['x;y;z|x;y;w', 'a|b', 'one', ''],
+CELLS = {'sc': ['k__A; p__B', 'a;b ;c', 'Root', '', ' k__A ;p__B', 'k__A\x0cx; p\x85B'], 'pipe': ['x;y;z|x;y;w', 'a|b', 'one', ''],
          'int': ['3', '-12', '007', 'abc', '', '4.5', '1_000'], 'float': ['6.5', '7.25', '-0.5', '3', '1e2', 'abc', ''],
-         None: ['foo', 'a b', 'é', 'x"y', '12', '', 'NA', "it's", 'a#b']}
+         None: ['foo', 'a b', 'é', 'x"y', '12', '', 'NA', "it's", 'a#b',
+                # characters at which str.splitlines (not file iteration) cuts a line: they belong to the field
+                'a\x0cb', 'x\x85y', 'p\u2028q', 'k\x1cv', 'm\x0bn \u2029o', 'r\x1ds\x1et']}
 
 
 def decorate(rng, text, edge):
